@@ -893,6 +893,8 @@ class Interp:
             return Enum(self.const_int(0, "isize"), {}, ENUM_VARIANTS["Option"], "Option")
         if c.startswith('"'):
             return Opaque("str:" + c)
+        if c.startswith('b"'):
+            return Opaque("bytes:" + c)
         m = re.match(r"'(.)'$", c)
         if m:
             return self.const_int(ord(m.group(1)), "char")
@@ -999,7 +1001,8 @@ class Interp:
         if m and not s.startswith("&&"):
             l, pr = self.parse_place(m.group(1))
             if l not in p.locals:
-                raise Unsupported("borrow of uninitialised local")
+                # never-assigned locals that are borrowed are zero-sized values (e.g. a capture-less closure)
+                p.locals[l] = Cell(Opaque("zst:unassigned-local"))
             # &(*_x) re-borrow
             if pr and pr[-1] == ("deref",) and len(pr) == 1:
                 return p.locals[l].v
@@ -1019,6 +1022,12 @@ class Interp:
             v = self.operand(p, m.group(1))
             if isinstance(v, Tup) and v.name == "Slice":
                 return v.f[2]
+            if isinstance(v, Ref):
+                tgt = v.cell.v
+                for pr in v.path:
+                    tgt = self._walk(tgt, pr)
+                if isinstance(tgt, Seq):
+                    return self.const_int(len(tgt.items), "usize")
             raise Unsupported("PtrMetadata of " + repr(v))
         # unary
         m = re.match(r"(Not|Neg)\((.+)\)$", s)
